@@ -860,22 +860,25 @@ static int ec_substitute(char *loc, char *cmd, char *arg, char *txt)
 	for (i = beg; i < end; i++) {
 		char *ln = lbuf_get(xb, i);
 		struct sbuf *r = NULL;
-		while (rstr_find(re, ln, LEN(offs) / 2, offs, 0) >= 0) {
+		int off = 0;		/* the part of ln already copied to r */
+		/* search from off, but let anchors and word boundaries see the whole line */
+		while (rstr_findat(re, ln, off, LEN(offs) / 2, offs, 0) >= 0) {
 			if (!r)
 				r = sbuf_make();
-			sbuf_mem(r, ln, offs[0]);
+			sbuf_mem(r, ln + off, offs[0] - off);
 			replace(r, xrep, ln, offs);
-			ln += offs[1];
-			if (offs[1] <= 0) {	/* zero-length match; skip one character */
-				int l = uc_len(ln);
-				sbuf_mem(r, ln, l);
-				ln += l;
+			if (offs[1] <= offs[0]) {	/* zero-length match; skip one character */
+				int l = uc_len(ln + offs[1]);
+				sbuf_mem(r, ln + offs[1], l);
+				off = offs[1] + l;
+			} else {
+				off = offs[1];
 			}
-			if (!*ln || *ln == '\n' || !strchr(s, 'g'))
+			if (!ln[off] || ln[off] == '\n' || !strchr(s, 'g'))
 				break;
 		}
 		if (r) {
-			sbuf_str(r, ln);
+			sbuf_str(r, ln + off);
 			lbuf_edit(xb, sbuf_buf(r), i, i + 1);
 			sbuf_free(r);
 		}
